@@ -41,6 +41,21 @@ Theorem c12_latest_always_replaced : forall before d, before <> AOther ->
   refresh_alias before d = Some (ALink (d_target d)).
 Proof. exact alias_always_replaced. Qed.
 
+(** Two runs into one output directory.  With the same run id (started
+    within the same second) the second one is refused - it does not move into
+    the first one's directory, whose result.js, artifacts and exit status stay
+    its own.  With different ids, the end of the earlier run - erasing its own
+    directory under --clear - leaves the later run's link alone. *)
+Theorem c12_second_run_same_id_refused : forall id st st',
+  start_run id st = Some st' -> start_run id st' = None.
+Proof. exact second_run_same_id_refused. Qed.
+
+Theorem c12_later_run_keeps_latest : forall a b st sa sb,
+  bytes_eqb a b = false ->
+  start_run a st = Some sa -> start_run b sa = Some sb ->
+  alias_leads_to (end_run a true sb) = Some b.
+Proof. exact later_run_keeps_latest. Qed.
+
 (** Without a run id (tests and hooks only), absolute output directory. *)
 Theorem c12_latest_resolves_nosub_partial : forall cwd dataDir sub,
   use_sub sub = false -> p_abs dataDir = true ->
